@@ -44,6 +44,15 @@ FUNCS = [
      {'indices': LIST}, SLICE),
 ]
 
+# module-level constants of static_frame.core.util the translated functions may name; their values are
+# re-read from the source by `check_constants` so that a change of a constant is a translation error
+MODULE_CONSTANTS = {
+    'EMPTY_SLICE': ('(PySlice.mk (some (0 : Int)) (some (0 : Int)) none)', SLICE),
+    'NULL_SLICE': ('(PySlice.mk none none none)', SLICE),
+    'UNIT_SLICE': ('(PySlice.mk (some (0 : Int)) (some (1 : Int)) none)', SLICE),
+}
+CONSTANT_SOURCE = {'EMPTY_SLICE': 'slice(0, 0)', 'NULL_SLICE': 'slice(None)', 'UNIT_SLICE': 'slice(0, 1)'}
+
 LEAN_TY = {INT: 'Int', SLICE: 'PySlice', LIST: 'List Int', BOOL: 'Bool'}
 
 
@@ -68,6 +77,7 @@ def ind(s, n=2):
 class Translator:
     def __init__(self, ret_type):
         self.ret_type = ret_type
+        self.slice_fields = {}
 
     # ---- expressions (CPS) -------------------------------------------------
     def tx(self, e, env, k):
@@ -85,6 +95,9 @@ class Translator:
                 return k(f'({e.value} : Int)', INT, env)
             raise TranslationError(f'constant {e.value!r}')
         if isinstance(e, ast.Name):
+            if e.id in MODULE_CONSTANTS and e.id not in env.vars:
+                t, ty = MODULE_CONSTANTS[e.id]
+                return k(t, ty, env)
             if e.id not in env.vars:
                 raise TranslationError(f'unknown name {e.id}')
             t, ty = env.vars[e.id]
@@ -197,7 +210,10 @@ class Translator:
                         raise TranslationError('slice() argument type')
                 if len(parts) == 2:
                     parts.append('none')
-                return k('(PySlice.mk ' + ' '.join(parts) + ')', SLICE, env_f)
+                term = '(PySlice.mk ' + ' '.join(parts) + ')'
+                # remember the fields of a constructed slice: reading them back needs no match
+                self.slice_fields[term] = [(a, ta) for a, ta in acc] + ([('none', NONE)] if len(acc) == 2 else [])
+                return k(term, SLICE, env_f)
             raise TranslationError(f'call outside subset: {ast.unparse(e)}')
 
         return many(0, [], env)
@@ -270,8 +286,37 @@ class Translator:
                     return self.block(rest, e3)
                 ln = e3.fresh(name)
                 e3.vars[name] = (ln, ty)
+                if ty == SLICE and t in self.slice_fields:
+                    for attr, (ft, fty) in zip(('start', 'stop', 'step'), self.slice_fields[t]):
+                        e3.narrow[ast.dump(ast.parse(f'{name}.{attr}', mode='eval').body)] = (ft, fty)
                 return f'let {ln} := {t}\n' + self.block(rest, e3)
             return self.tx(s.value, env, bind)
+        if (isinstance(s, ast.Assign) and len(s.targets) == 1 and isinstance(s.targets[0], ast.Tuple)
+                and len(s.targets[0].elts) == 3 and all(isinstance(x, ast.Name) for x in s.targets[0].elts)
+                and isinstance(s.value, ast.Call) and isinstance(s.value.func, ast.Attribute)
+                and s.value.func.attr == 'indices' and len(s.value.args) == 1 and not s.value.keywords):
+            # a, b, c = <slice>.indices(<int>)  -- CPython PySlice_AdjustIndices (ValueError on step 0 / negative length)
+            names = [x.id for x in s.targets[0].elts]
+
+            def with_slice(t, ty, e1):
+                if ty != SLICE:
+                    raise TranslationError('.indices on a non-slice')
+
+                def with_len(n, tn, e2):
+                    if tn != INT:
+                        raise TranslationError('.indices argument')
+                    e3 = e2.copy()
+                    lns = []
+                    for name in names:
+                        e3.narrow = {kk: vv for kk, vv in e3.narrow.items() if f"id='{name}'" not in kk}
+                        ln = e3.fresh(name)
+                        e3.vars[name] = (ln, INT)
+                        lns.append(ln)
+                    return (f'if {n} < 0 then none  -- ValueError: length should not be negative\nelse\n'
+                            + ind(f'match PySlice.indices {t} (Int.toNat {n}) with\n| .error _ => none  -- ValueError: slice step cannot be zero\n'
+                                  f'| .ok ({lns[0]}, {lns[1]}, {lns[2]}) =>\n' + ind(self.block(rest, e3))))
+                return self.tx(s.value.args[0], e1, with_len)
+            return self.tx(s.value.func.value, env, with_slice)
         if isinstance(s, ast.If):
             return self.cond(s.test, env,
                              lambda et: self.block(list(s.body) + rest, et),
@@ -310,8 +355,17 @@ def translate_function(src, cls, name, ptypes, rtype):
 def generate(repo):
     """Returns (text or None, list of error strings)."""
     out = ['-- GENERATED by tools/py2lean.py from the current static-frame source; do not edit.',
-           'import SFModel.Slice', '', 'namespace SF.Gen', '']
+           'import SFModel.Slice', '', 'set_option linter.unusedVariables false', '', 'namespace SF.Gen', '']
     errors = []
+    try:
+        usrc = open(os.path.join(repo, 'static_frame/core/util.py')).read()
+        for cname, cval in CONSTANT_SOURCE.items():
+            found = [ast.unparse(n.value) for n in ast.parse(usrc).body
+                     if isinstance(n, ast.Assign) and len(n.targets) == 1 and isinstance(n.targets[0], ast.Name) and n.targets[0].id == cname]
+            if found != [cval]:
+                errors.append(f'constant {cname}: source says {found}, translator assumes {cval}')
+    except (OSError, SyntaxError) as ex:
+        errors.append(f'constants: {ex}')
     for path, cls, name, ptypes, rtype in FUNCS:
         try:
             src = open(os.path.join(repo, path)).read()
